@@ -11,7 +11,7 @@
    every handle range, every uuid value, every out_size >= 23 (= every MTU), every connection state. *)
 From BT Require Import Base.ListX AttDb.AttDbModel AttDb.AttDbSpec AttDb.AttDbProofs AttDb.AttDbExamples NQueue.NQueueModel
   AttSrv.AttSrvModel AttSrv.AttSrvSpecC02 AttSrv.AttSrvSpecC03 AttSrv.AttSrvProofsC02 AttSrv.AttSrvProofsC03
-  AttSrv.AttSrvProofsDiscMon AttSrv.AttSrvExamplesDisc.
+  AttSrv.AttSrvProofsDiscMon AttSrv.AttSrvProofsNoFault AttSrv.AttSrvExamplesDisc.
 Local Open Scope N_scope.
 
 (* ---- (1) Discover All Primary Services: the response to  10 lo hi 00 28  is determined by W, the
@@ -103,12 +103,19 @@ Proof.
 Qed.
 Print Assumptions C03_monitor_accepts_model_partial.
 
-(* the statement without the "no FAULT" premise (connection numbers < 3 as the drivers produce them): NOT
-   proved - it needs C01 (a) for the two requests in every reachable state *)
-Definition C03_monitor_accepts_model_full : Prop :=
-  forall c ops, wf c -> no_includes c -> forallb op_bytes ops = true ->
-    forallb (fun o => match o with OpIn cid _ _ => Nat.ltb cid n_conns | _ => true end) ops = true ->
+(* ---- (5) ... and without any premise on the outputs: for every wf configuration without include_service<>
+   and EVERY request history of any length (requests of bytes, connection numbers 0..2 as the drivers produce
+   them) the monitor accepts the model's trace from the initial state. In addition to (4): every reachable
+   state has three connections with a client MTU >= 23 (invariant through all 14 handlers, l2cap_output,
+   notify / indicate, disconnect, ...), and on such a state Read By Group Type and Find By Type Value never
+   FAULT (every buffer access of the two handlers is in bounds, every attribute_at index valid). *)
+Theorem C03_monitor_accepts_model :
+  forall c ops, wf c -> no_includes c -> forallb op_bytes ops = true -> forallb op_conn ops = true ->
     c03_monitor c (srv_run c (srv_init c) ops) = None.
+Proof.
+  intros c ops Hw Hn Hb Hc. apply c03_monitor_accepts_full; auto; [apply srv_init_ok|apply mon_ok_init].
+Qed.
+Print Assumptions C03_monitor_accepts_model.
 
 (* ---- non-vacuity / witnesses. cfg_secondary: 1820 (secondary, 1..3), 1821 (4..6), 128 bit (secondary, 7..9),
    128 bit (10..12), 1822 (secondary, 13..15) *)
